@@ -11,7 +11,7 @@ from .common import gen_knobs, pick
 from .hist import Index
 
 LITERALS = ["10.0.0.5", "192.168.1.77", "fd00::5", "fe80::1%3", "::1", "2001:db8::2%12"]
-LOCALS = ["mydev", "mydev.local", "mydev.local.", "other", "other.local", "patio.local", "pool", "alexa.local.", "attic", "hall-panel.local", "local", "coal.local"]  # (labels ending in the letters of "local" or a dot included)
+LOCALS = ["mydev", "mydev.local", "mydev.local.", "other", "other.local", "patio.local", "pool", "alexa.local.", "attic", "hall-panel.local", "local", "coal.local", "3dprinter", "3dprinter.local", "1st-floor.local.", "10lamp"]  # (labels ending in the letters of "local" or a dot, and names starting with a digit included)
 FQDNS = ["dev.example.com", "esp.lan", "node.example.org.", "kitchen.intralocal", "node.office-local", "dev.example.nonlocal."]
 # names a resolver library refuses: mDNS instance labels longer than 63 bytes or with control characters (zeroconf raises in the
 # request constructor), host names with an empty or > 63 byte label (the idna codec in socket.getaddrinfo raises UnicodeError)
